@@ -244,9 +244,11 @@ def cnlLogG (nests : List (CNest α)) (V av : Int → α) (i : Int) : α :=
 /-- `all(isinstance(a, Numeric) and a.get_value() == 0 for a in memberships)` in
 `get_mev_for_cross_nested_mu` (`memberships` = the alphas of `i` in the nests that list it):
 every membership of `i` is zero (vacuously true for an alternative listed nowhere).
-The model carries the *value* of a membership only: a zero is taken to be a constant — the code
-does not recognise a `Beta` of value 0 (it then computes `log(mu * 0)`); the harness writes the
-zeros of an alternative that belongs to no nest as constants. -/
+The model carries the *value* of a membership only and tests the value, as `logzero` does in the
+version without `mu`: this is the *repaired* behaviour (known finding F-C06-2: the code
+recognises constants only; for a `Beta` of value 0 in every nest it computes `log(mu * 0)`).
+The main streams of the harness write the zeros of an alternative that belongs to no nest as
+constants, on which code and model agree. -/
 def zeroMember (nests : List (CNest α)) (i : Int) : Bool :=
   (giTerms (fun _ _ a => a) nests i).all fun a => eq a 0
 
